@@ -132,7 +132,7 @@ def code_order_globals(body):
 
 
 # the C02 features that also change the JavaScript (F40 / F122 / F124 / F125 / F21 do not: the JavaScript side is right there)
-C02_RELEVANT = ("F20", "F38", "F140")
+C02_RELEVANT = ("F20", "F38", "F140", "F142")
 EXCEPTION_FEATURES = ()
 FIXED_JS = {"F120", "F128", "F129", "F130"}     # repaired in /repo: ordinary inputs now
 
@@ -343,6 +343,7 @@ PROBES = {
     "f139_declared_property_named_like_movie_property": dict(tree=["script", ["factory", "-"], ["props", "actorList"], ["globals"],
         ["on", "probe", ["a"], ["set", ["r", "actorList"], ["i", 1]], ["set", ["l", "x"], ["r", "actorList"]]]], pre=[], kind="probe"),
     "f140_symbol_first_arg_of_list_function": _p([["set", ["l", "x"], ["c", "getOne", ["y", "foo"], ["i", 3]]]]),
+    "f142_object_named_tell_obj": _p([["set", ["l", "tell_obj"], ["i", 1]], ["set", ["l", "x"], ["op", "foo", ["l", "tell_obj"]]], ["set", ["op", "bar", ["l", "tell_obj"]], ["i", 2]]]),
     "f141_reserved_word_as_local": _p([["set", ["l", "var"], ["i", 3]]]),
     "f138_exit_directly_in_tell": _p([["while", ["b", "ne", ["l", "c"], ["i", 1]], ["tell", ["c", "window", ["s", S("a")]], ["call", "beep"], "exitrep"]]]),
     "f137_if_inside_tell": _p([["tell", ["c", "window", ["s", S("a")]], ["if", ["b", "lt", ["l", "c"], ["i", 2]], [["set", ["the", "sys", 0x1b], ["i", 1]]], [["call", "beep"]]],
